@@ -60,8 +60,18 @@ func (c *checkSchema) checkType(name string, typ ischema.Type, ss map[string]isc
 
 		// Return an error with the full set of bytes of the root schema.
 		if jErr, ok := r.(kit.JSchemaError); ok {
-			jErr.SetFile(typ.RootFile)
-			jErr.SetIndex(bytes.Index(jErr.Index()) + typ.Begin)
+			// A node inherited through `allOf` lies in the text of the type it
+			// was inherited from: the position belongs to that text.
+			home := typ
+			for _, t := range ss {
+				n := t.Schema.RootNode()
+				if n != nil && jErr.File() != nil && n.BasisLexEventOfSchemaForNode().File() == jErr.File() {
+					home = t
+					break
+				}
+			}
+			jErr.SetFile(home.RootFile)
+			jErr.SetIndex(bytes.Index(jErr.Index()) + home.Begin)
 			if !strings.HasPrefix(name, "#") {
 				// Unnamed types (`@a | @b`, rule-sets of `or`) are named with an
 				// internal sequence number: not something to show to the user.
